@@ -58,6 +58,10 @@ THEOREMS = {
     "C20_model_is_source_generate_full_combinatoric_space": "the translation of the WHOLE function generate_full_combinatoric_space, regenerated from /repo on this run (Generated/SrcSpace.v), on mapping rows ((name, dose), id), equals the model full_space on the rows (key, id), for every numbering key of the (name, dose) pairs that is injective on the mapping's pairs: the size guard and its raise, zip of the mapping's name and dose columns, itertools.combinations of ALL rows with the screen's arity, the two projections, dict(zip(ids, names))[sample_id], the replicated sample name, and Screen(...) called with the screen's OWN sample_mapping and treatment_mapping",
     "C20_source_synergy_def": "hence, on well-formed input, the TRANSLATED calculate_synergy equals the row-by-row definition synergy_def (C20_synergy_def composed with the link)",
     "C20_source_effect_array_def": "hence, on well-formed input, the TRANSLATED create_single_treatment_effect_array equals effect_array_def",
+    "C20_model_is_source_save_h5": "the translation of the WHOLE method ModelEvaluation.save_h5, regenerated from /repo's models/main.py on this run (Generated/SrcEvalIO.v), denotes the raw HDF5 content it writes; read back by name (the representation map evraw_close) that content is exactly the model's file ev_save e, the 2-d predictions carrying shape[1] = ncols - for all evaluations: which four datasets are created, under which names, from which property of the object (predictions / observations / chain_ids / sample_names, the properties translated too), the sample names passing through the translated encode_string_array",
+    "C20_model_is_source_load_h5": "the translation of the WHOLE classmethod ModelEvaluation.load_h5 on EVERY raw file that holds the four datasets equals the model's ev_load of the represented file when the stored predictions.shape[1] is the number of stored chain ids, and the constructor's ValueError otherwise (no hypothesis on the content): which dataset is read into which local, the translated decode_string_array on the names, and which keyword of cls(...) = the translated __init__ receives which",
+    "C20_model_is_source_string_codec": "the translations of batchie.data.encode_string_array / decode_string_array (the `arr.size == 0` guard, np.empty of the same shape, np.char.encode / decode) are the identity on every 1-d string array, with or without elements (without the guard: an error on arrays without elements, the defect repaired in /repo 6d95451)",
+    "C20_source_eval_save_load": "hence C20_eval_save_load holds of the translated source: for every evaluation the constructor builds (m = predictions.shape[1]; zero experiments, zero thetas, square matrices included) the translated load_h5 applied to what the translated save_h5 wrote returns the evaluation unchanged",
 }
 ASSUMPTIONS = [
     "floating point rounding is not modelled: the model computes the real-number value over exact rationals; comparison tolerance 1e-9",
@@ -129,7 +133,24 @@ EXPLANATION = ("Model: Model/Metrics.v, Model/Synergy.v, Model/Corr.v; definitio
                "mean_predictions is linked like mse (C20_EV_MEAN_PREDICTIONS).  "
                "ModelEvaluation.__init__ is linked to mk_eval (C20_EV_INIT; trusted there: the four np.issubdtype guards are true, len(predictions.shape) = 2 "
                "iff every row has shape[1] entries, a.shape[0] = length).  "
-               "Not linked (left to the correspondence): correlation_matrix, ModelEvaluation.save_h5 / load_h5, the other predict_* helpers.")
+               "ModelEvaluation.save_h5 / load_h5 are linked (C20_EVIO_SAVE / C20_EVIO_LOAD, with the property sample_names and the helpers "
+               "encode_string_array / decode_string_array of data.py translated too: C20_EV_SAMPLE_NAMES, C20_EVIO_CODEC; Generated/SrcEvalIO.v; "
+               "proofs Proofs/C20SourceIO.v).  The translations work on the raw HDF5 content `evraw` (datasets by name in creation order, last "
+               "part of Model/Metrics.v): save_h5 denotes what it writes, load_h5 reads such a content; the explicit representation map to "
+               "the model's file is evraw_close (the four datasets present under their names with their kinds, the 2-d predictions carrying "
+               "shape[1]).  The `with` block, the order and arguments of the four create_dataset calls, the reads into the four locals, the "
+               "codec calls, the keyword call cls(...) = the translated __init__ on a blank instance and the return inside the `with` come "
+               "from the translation.  Trusted primitives there, one h5py / numpy call each: h5py.File(fn, 'w') = a new empty file and "
+               "h5py.File(fn, 'r') = the content handed in (entering / leaving the context changes nothing else); "
+               "f.create_dataset(NAME, data=d, compression='gzip') for the four literal names = append (NAME, d) of the kind 2-d float / 1-d float / "
+               "1-d int / 1-d bytes, an existing name raises; f[NAME][:] for the four literal names = the stored array (KeyError tag 30 when "
+               "absent, tag 32 when of another kind); self.predictions / .observations / .chain_ids / .sample_names = the translated properties, "
+               "the predictions' shape[1] being the explicit ncols; inside the codec helpers arr.size == 0, np.empty(arr.shape, dtype=...) "
+               "(= arr itself where it has no element, unmodelled tag 34 elsewhere) and np.char.encode(arr) / np.char.decode(arr, 'utf-8') "
+               "(the identity on the strings of an array with elements - the h5py / UTF-8 assumption above -, tag 33 on an array without "
+               "elements, which numpy answers with a float64 array); str and bytes arrays are distinct type names for the translator, so a "
+               "missing or doubled codec call is refused.  "
+               "Not linked (left to the correspondence): correlation_matrix, the other predict_* helpers.")
 
 TAGS = {1: "ValueError", 4: "IndexError", 5: "KeyError"}
 NAN = "nan"
